@@ -4,6 +4,7 @@
   Corollaries of the master theorem (`Proofs/MRT/*`, `Props/C09b.lean`).
 -/
 import Props.C09b
+import Props.C11
 set_option autoImplicit false
 
 namespace Narsese.Props.C10
@@ -38,5 +39,11 @@ components keep their order — for the surface tree `( conn , c₁ , … , _ , 
 theorem image_surface (F : EFormat) (k : ImgK) (pre post : List Term) (h : noPlaceholder pre) :
     finishT (.img k) (pre ++ .placeholder :: post) = some (.image k pre.length (Terms.ofList (pre ++ post))) := by
   simp [finishT, image_index_enum pre post h]
+
+/-- tie of the model's copula look-ahead list (`EFormat.copulas`, written out in the model) to what the crate's
+`NarseseFormat::copulas()` yields, regenerated on every run: the theorems of this file talk about the model's list -/
+theorem copulas_lookahead_tie :
+    Gen.asciiE.copulas = Gen.asciiCopulasOrder ∧ Gen.latexE.copulas = Gen.latexCopulasOrder ∧
+    Gen.hanE.copulas = Gen.hanCopulasOrder := C11.copulas_order
 
 end Narsese.Props.C10
